@@ -351,6 +351,9 @@ func (in *wasmInst) invoke(fidx uint32, args []*sym.Term) []*sym.Term {
 			st = append(st, in.invoke(uint32(i.A), args)...)
 		case op == 0x11:
 			idx := pop()
+			if !idx.IsConst() && !m.path.Branch(c.Ult(idx, k32(uint64(len(in.table))))) {
+				in.trap("undefined element")
+			}
 			k := m.path.Concretize(idx, "call_indirect index")
 			if k >= uint64(len(in.table)) {
 				in.trap("undefined element")
